@@ -154,3 +154,12 @@ UNITS.append(dict(name='C17.outgoing_queue', props=['C17', 'C05', 'C03'], kind='
                 dict(name='_dbus_connection_do_iteration_unlocked, _dbus_connection_wakeup_mainloop', file=CONN, status='replaced', note='arguments logged; the iteration may drain the queue (contract: C17.do_iteration)'),
                 dict(name='dbus_message_ref/get_serial/set_serial/lock, _dbus_message_add_counter_link/_remove_counter, dbus_free', file='dbus/dbus-message.c', status='stub', note='ghost serial; counted and ordered')],
      assumptions=[SEQ, 'client_serial != 0 (invariant)']))
+
+UNITS.append(dict(name='C17.incoming_queue', props=['C17', 'C05', 'C11'], kind='P', route='stub', entry='harness',
+     tus=[dict(file=CONN, include_as='VERIF_TU')], harness='harness/c17_inq.c',
+     replace_calls={'_dbus_connection_wakeup_mainloop': 'verif_stub_wakeup', 'check_disconnected_message_arrived_unlocked': 'verif_stub_check_disconnected_arrived'},
+     timeout=300, expect_s=10, must_have=['inq.out2', 'inq.back', 'inq.in'],
+     functions=[dict(name='_dbus_connection_pop_message_link_unlocked, _dbus_connection_putback_message_link_unlocked, _dbus_connection_queue_synthesized_message_link', file=CONN, status='enforced', contract='in at the end only, out from the front only, put back to the front; n_incoming counts'),
+                dict(name='_dbus_list_pop_first_link/_prepend_link/_append_link/...', file='dbus/dbus-list.c', status='stub', note='which end of the incoming queue is used is the obligation'),
+                dict(name='check_disconnected_message_arrived_unlocked, _dbus_connection_wakeup_mainloop', file=CONN, status='replaced', note='no effect on the queue')],
+     assumptions=[SEQ]))
